@@ -159,3 +159,17 @@ RESULT_FILTERS = {
     "reject": fr_reject,
     "even": fr_even,
 }
+
+
+def nb_filter(name):
+    """
+    A neighbors()/traversal filter by name.  A leading "~" asks for a fresh,
+    short-lived callable (a new closure per call, as a caller writing an
+    inline lambda would pass), with the verdicts of the named filter.
+    """
+    if name is None:
+        return None
+    if name.startswith("~"):
+        base = NB_FILTERS[name[1:]]
+        return lambda edge, other: base(edge, other)
+    return NB_FILTERS[name]
